@@ -730,7 +730,11 @@ class xfunc_mean(xfunc):
                     valid_segment = self.countables[rowmask]
                     valid_counts[i] = numpy.sum(valid_segment, axis=0)
                     if not self.ignore_missing:
-                        missing_counts[i] = len(valid_segment) - valid_counts[i]
+                        # valid_counts is *weighted*; count missing rows from
+                        # the unweighted validity.
+                        missing_counts[i] = len(valid_segment) - numpy.sum(
+                            self.validity[rowmask], axis=0
+                        )
 
     def reduce(self, cube, regions):
         """Return `regions` reduced to proper output."""
